@@ -217,6 +217,12 @@ func rigSchedules(variant string) []rigSchedule {
 	var out []rigSchedule
 	full := tier == "thorough"
 	kinds := []string{"R", "W"}
+	// g: a gap that lets one miss complete before the next event (a miss takes ~315 cycles on MVP-7.x,
+	// ~415 on MVP-8, which goes through the L3)
+	g := 400
+	if variant == "mvp8-0" {
+		g = 600
+	}
 	// A. pairs
 	for _, k1 := range kinds {
 		for _, k2 := range kinds {
@@ -284,7 +290,7 @@ func rigSchedules(variant string) []rigSchedule {
 	for _, k1 := range kinds {
 		for _, k2 := range kinds {
 			for dt := 0; dt <= 8; dt++ {
-				evs := []rigEvent{{0, 0, k1, 64}, {400, 0, k2, 64}, {400 + dt, 0, "F", 0}, {500, 1, "W", 64}, {1300, 0, "R", 64}}
+				evs := []rigEvent{{0, 0, k1, 64}, {g, 0, k2, 64}, {g + dt, 0, "F", 0}, {g + 100, 1, "W", 64}, {g + 900, 0, "R", 64}}
 				out = append(out, rigSchedule{Variant: variant, Cores: 2, Events: evs, Tags: []string{"rig_flush_owned_line"}})
 			}
 		}
@@ -293,7 +299,7 @@ func rigSchedules(variant string) []rigSchedule {
 	for _, k0 := range kinds {
 		for d1 := 0; d1 <= 3; d1++ {
 			for d2 := 0; d2 <= 5; d2++ {
-				evs := []rigEvent{{0, 0, "R", 64}, {400, 1, "W", 64}, {400 + d1, 1, "F", 0}, {400 + d2, 0, k0, 64}, {1200, 1, "R", 64}}
+				evs := []rigEvent{{0, 0, "R", 64}, {g, 1, "W", 64}, {g + d1, 1, "F", 0}, {g + d2, 0, k0, 64}, {3 * g, 1, "R", 64}}
 				out = append(out, rigSchedule{Variant: variant, Cores: 2, Events: evs, Tags: []string{"rig_flush_after_commands"}})
 			}
 		}
@@ -303,10 +309,10 @@ func rigSchedules(variant string) []rigSchedule {
 	for _, k := range kinds {
 		for d := 0; d <= 12; d += 2 {
 			for rep := 0; rep < 4; rep++ {
-				evs := []rigEvent{{0, 1, "R", 64}, {1, 2, "R", 64}, {400, 2, "W", 192}, {800, 1, "R", 196}, {802 + d, 0, k, 68}, {1600 + rep, 1, "R", 64}}
+				evs := []rigEvent{{0, 1, "R", 64}, {1, 2, "R", 64}, {g, 2, "W", 192}, {2 * g, 1, "R", 196}, {2*g + 2 + d, 0, k, 68}, {4*g + rep, 1, "R", 64}}
 				out = append(out, rigSchedule{Variant: variant, Cores: 3, Events: evs})
 				// the same with the writer being a third sharer (upgrade Shared -> Modified)
-				evs2 := []rigEvent{{0, 1, "R", 64}, {1, 2, "R", 64}, {2, 0, "R", 64}, {400, 2, "W", 192}, {800, 1, "R", 196}, {802 + d, 0, k, 68}, {1600 + rep, 1, "R", 64}}
+				evs2 := []rigEvent{{0, 1, "R", 64}, {1, 2, "R", 64}, {2, 0, "R", 64}, {g, 2, "W", 192}, {2 * g, 1, "R", 196}, {2*g + 2 + d, 0, k, 68}, {4*g + rep, 1, "R", 64}}
 				out = append(out, rigSchedule{Variant: variant, Cores: 3, Events: evs2})
 			}
 		}
@@ -318,11 +324,11 @@ func rigSchedules(variant string) []rigSchedule {
 		for _, k2 := range kinds {
 			for _, busy := range []bool{false, true} {
 				for d := 0; d <= 2; d++ {
-					evs := []rigEvent{{0, 0, "W", 0}, {400, 0, "W", 64}}
+					evs := []rigEvent{{0, 0, "W", 0}, {g, 0, "W", 64}}
 					if busy {
-						evs = append(evs, rigEvent{1199, 0, "W", 192})
+						evs = append(evs, rigEvent{3*g - 1, 0, "W", 192})
 					}
-					evs = append(evs, rigEvent{1200, 1, k1, 4}, rigEvent{1200 + d, 2, k2, 68}, rigEvent{1201, 1, "W", 256}, rigEvent{3000, 0, "R", 4}, rigEvent{3001, 2, "R", 8})
+					evs = append(evs, rigEvent{3 * g, 1, k1, 4}, rigEvent{3*g + d, 2, k2, 68}, rigEvent{3*g + 1, 1, "W", 256}, rigEvent{8 * g, 0, "R", 4}, rigEvent{8*g + 1, 2, "R", 8})
 					out = append(out, rigSchedule{Variant: variant, Cores: 3, Events: evs})
 				}
 			}
@@ -340,8 +346,8 @@ func rigSchedules(variant string) []rigSchedule {
 	for _, k1 := range kinds {
 		for _, k2 := range kinds {
 			for _, d := range jgrid {
-				out = append(out, rigSchedule{Variant: variant, Cores: 2, Events: []rigEvent{{0, 0, "W", 64}, {400, 1, k1, 68}, {400 + d, 0, k2, 72}, {2000, 1, "R", 64}}})
-				out = append(out, rigSchedule{Variant: variant, Cores: 3, Events: []rigEvent{{0, 0, "W", 64}, {400, 1, k1, 68}, {401, 2, "R", 76}, {400 + d, 0, k2, 72}, {2000, 1, "R", 64}, {2001, 2, "R", 64}}})
+				out = append(out, rigSchedule{Variant: variant, Cores: 2, Events: []rigEvent{{0, 0, "W", 64}, {g, 1, k1, 68}, {g + d, 0, k2, 72}, {5 * g, 1, "R", 64}}})
+				out = append(out, rigSchedule{Variant: variant, Cores: 3, Events: []rigEvent{{0, 0, "W", 64}, {g, 1, k1, 68}, {g + 1, 2, "R", 76}, {g + d, 0, k2, 72}, {5 * g, 1, "R", 64}, {5*g + 1, 2, "R", 64}}})
 			}
 		}
 	}
